@@ -12,7 +12,8 @@ from pathlib import Path
 
 from . import common
 from .common import glist
-from .c12_conv import Conv, OutOfDomain, ref_compile, decl_matches, decl_findall, _decl_seq
+from .c12_conv import (Conv, OutOfDomain, ref_compile, decl_findall, twin_findall, has_noncommon_named,
+                       name_in_and_out_of_quantified_list)
 
 PID = "C12"
 HDR = ("From Coq Require Import List ZArith NArith String.\nImport ListNotations.\n"
@@ -637,21 +638,18 @@ def oracle_case(mods, pattern: str, source: str):
             return None
         root = ast.parse(source)
         found = [(m.span.start, m.span.end) for m in pm.finditer(pattern, source)]
-        if isinstance(tmpl, list):
-            want_nodes = decl_findall(core, tmpl, root, core.DEFAULT_IGNORE)
-            want = []
-            for w in want_nodes:
-                rs = [core.get_charnos(n, source) for n in w]
-                want.append((min(r.start for r in rs), max(r.end for r in rs)))
-        else:
-            want_nodes = decl_findall(core, tmpl, root, ())
-            want = []
-            for n in want_nodes:
+
+        def spans(items):
+            out = []
+            for w in items:
                 try:
-                    r = core.get_charnos(n, source)
-                    want.append((r.start, r.end))
+                    rs = [core.get_charnos(n, source) for n in (w if isinstance(w, tuple) else (w,))]
+                    out.append((min(r.start for r in rs), max(r.end for r in rs)))
                 except Exception:  # noqa
-                    want.append(("no-position", type(n).__name__))
+                    out.append(("no-position", type(w).__name__))
+            return out
+        want = spans(decl_findall(core, tmpl, root, core.DEFAULT_IGNORE if isinstance(tmpl, list) else ()))
+        twin = spans(twin_findall(core, tmpl, root))
     missing = sorted(set(want) - set(found), key=str)
     extra = sorted(set(found) - set(want), key=str)
     dup = len(found) != len(set(found))
@@ -660,40 +658,38 @@ def oracle_case(mods, pattern: str, source: str):
     show = lambda sp: source[sp[0]:sp[1]] if isinstance(sp[0], int) else str(sp)  # noqa
     return {"pattern": pattern, "source": source, "missing": [show(s) for s in missing][:6],
             "extra": [show(s) for s in extra][:6], "duplicates": dup,
-            "found": [show(s) for s in found][:10]}
+            "found": [show(s) for s in found][:10],
+            "model_agrees": sorted(twin, key=str) == sorted(found, key=str)}
 
 
-def _pattern_info(mods, pattern):
-    import re
-    named_q = re.findall(r"\{\{(\w+)[?*+]\}\}", pattern)
-    plain = re.findall(r"\{\{(\w+)\}\}", pattern)
-    anyq = re.findall(r"\{\{(?:\w+|\.\.\.)[?*+]\}\}", pattern)
-    return {"named_q": named_q, "plain": plain, "anyq": anyq,
-            "repeated": [n for n in set(plain) if plain.count(n) > 1]}
+def _compiled(mods, pattern):
+    with common.quiet():
+        return mods["core"].compile_template(pattern)
 
 
-# known-finding signatures: (site, predicate over the oracle's failure record)
+# known-finding signatures: predicates over the oracle's failure record.  Every one requires that the
+# wrong answer is exactly the answer of the (Python twin of the) Coq model -- whose only defects are the
+# listed ones -- plus a structural condition on the pattern that tells the findings apart.
 def sig_named_quantifier_forced_equal(mods, f):
-    # a named ? * + wildcard; occurrences the search misses, none it invents
-    return bool(_pattern_info(mods, f["pattern"])["named_q"]) and f["missing"] and not f["extra"]
+    return f["model_agrees"] and f["missing"] and not f["extra"] and \
+        has_noncommon_named(mods["core"], _compiled(mods, f["pattern"]))
 
 
 def sig_no_backtracking(mods, f):
-    # a repeated plain name together with a quantifier somewhere in the pattern; misses only
-    i = _pattern_info(mods, f["pattern"])
-    return bool(i["repeated"]) and bool(i["anyq"]) and f["missing"] and not f["extra"]
+    return f["model_agrees"] and f["missing"] and not f["extra"] and \
+        name_in_and_out_of_quantified_list(mods["core"], _compiled(mods, f["pattern"]))
 
 
 def sig_bare_wildcard(mods, f):
-    import re
-    return re.fullmatch(r"\s*\{\{(\w+|\.\.\.)\}\}\s*", f["pattern"]) is not None and not f["found"]
+    return f["model_agrees"] and not f["found"] and \
+        re.fullmatch(r"\s*\{\{(\w+|\.\.\.)\}\}\s*", f["pattern"]) is not None
 
 
 def sig_python_equality(mods, f):
     # the invented occurrences are constants that compare == to a constant of the pattern but are not it
-    if f["missing"] or not f["extra"]:
+    if not f["model_agrees"] or f["missing"] or not f["extra"]:
         return False
-    consts = {repr(n.value) for n in ast.walk(ast.parse(__import__("re").sub(r"\{\{[\w.]+[?*+]?\}\}", "zz", f["pattern"])))
+    consts = {repr(n.value) for n in ast.walk(ast.parse(re.sub(r"\{\{[\w.]+[?*+]?\}\}", "zz", f["pattern"])))
               if isinstance(n, ast.Constant)}
     for e in f["extra"]:
         ecs = [n.value for n in ast.walk(ast.parse(e.strip())) if isinstance(n, ast.Constant)]
